@@ -32,6 +32,7 @@ func main() {
 	tables := flag.String("tables", "", "write the FSM tables of the tree under test as JSON and exit")
 	fast := flag.Bool("fast", true, "compressed waits")
 	retx := flag.Duration("retransmit", time.Hour, "retransmission interval of opening_tx_broadcasted (C22 runs use a few ms)")
+	offset := flag.Int("offset", 0, "trace numbers start at offset+1 (the engine runs long schedule lists in batches)")
 	flag.Parse()
 	if *tables != "" {
 		b, _ := json.MarshalIndent(swap.VerifTables(), "", " ")
@@ -91,7 +92,7 @@ func main() {
 				if cfg.Retransmit {
 					// only C22 schedules use real-time retransmission ticks
 				}
-				world := l1.NewWorld(i+1, filepath.Join(*tmp, fmt.Sprintf("node-%06d", i)), cfg, w)
+				world := l1.NewWorld(*offset+i+1, filepath.Join(*tmp, fmt.Sprintf("node-%06d", i)), cfg, w)
 				l1.RunSchedule(world, s)
 				world.Close()
 				w.Close()
